@@ -721,7 +721,9 @@ impl Work {
 }
 
 /// (first comment after token k, second comment after token k or k+1)
-pub const PAIR_KINDS: [(&str, &str, bool, &str); 5] = [
+pub const PAIR_KINDS: [(&str, &str, bool, &str); 7] = [
+    ("block+multiline-adjacent", " --[[c8]]", false, "--[[ c9\n     c9 ]] "),
+    ("line-own+block-adjacent", "\n-- c8\n--[[c9]]", false, "--[[ c7\n c7 ]]\n"),
     ("block+line", " --[[c8]] ", true, " -- c9\n"),
     ("block+block", " --[[c8]] ", true, " --[[c9]] "),
     ("line+line", " -- c8\n", true, " -- c9\n"),
